@@ -5,33 +5,45 @@
 (* allows.  Every event it produces is run through the contract monitor (EventLoopOps!     *)
 (* Judge), so TLC checks that the contract is satisfiable by a correct loop for every      *)
 (* scenario, and -- with Bad set -- that it refutes loops that block before running idle   *)
-(* callbacks, run removed callbacks, or fire alarms out of order.                          *)
+(* callbacks, run removed callbacks, fire alarms out of order, or let a zero-delay alarm   *)
+(* overtake an alarm that is already overdue (busy start-up before run(), slow callback).  *)
 (* The scenarios double as test scripts for the six real loops (spec -> code).             *)
 EXTENDS EventLoopOps
 
 CONSTANTS NA, NF, NI,      \* scripted alarms 1..NA (alarm NA+1 is the final exit alarm), descriptors, idle callbacks
           Delays, Ats,     \* alarm delays; times at which a descriptor becomes readable (9999 = never within a session)
           ABeh, WBeh, IBeh,\* behaviours for alarm / watch / idle callbacks
+          Busy,            \* subset of 0..NA: the program is busy (BusyD) right after registering alarm k, before run() (0 = no busy start-up)
           Bad              \* "" for the correct loop, else the name of a deliberately wrong loop
 
-VARIABLES scn, s, nextid, why, phase, steps
-vars == <<scn, s, nextid, why, phase, steps>>
+VARIABLES scn, s, nextid, why, phase, steps,
+          zero             \* ids of the alarms registered with delay 0 (what the wrong loop "zeroDelayFirst" serves from a ready queue)
+vars == <<scn, s, nextid, why, phase, steps, zero>>
 
 ExitAlarm == NA + 1
 ExitDelay == 100
+BusyD == 15                \* length of a busy period (start-up, or a slow callback)
 
 Scenarios ==
   [alarms : [1..NA -> [delay : Delays, beh : ABeh]],
    watches : [1..NF -> [at : Ats, beh : WBeh]],
-   idles : [1..NI -> IBeh]]
+   idles : [1..NI -> IBeh],
+   busy : Busy]
 
 RECURSIVE Fold(_, _, _)
 Fold(st, evs, i) ==    \* run events through the monitor; stop at the first broken clause
   IF i > Len(evs) THEN [s |-> st, why |-> "-"]
   ELSE LET r == Judge(st, evs[i]) IN IF r.why # "-" THEN r ELSE Fold(r.s, evs, i + 1)
 
+\* alarms are registered one after the other before run(); after alarm sc.busy the program is busy for BusyD (slow start-up),
+\* so the alarms registered before it may already be overdue when the later ones (and run()) come
+RECURSIVE AlarmRegs(_, _)
+AlarmRegs(sc, i) ==
+  IF i > NA THEN <<>>
+  ELSE <<[t |-> "reg_alarm", id |-> i, delay |-> sc.alarms[i].delay]>>
+       \o (IF sc.busy = i THEN <<[t |-> "slow", d |-> BusyD]>> ELSE <<>>) \o AlarmRegs(sc, i + 1)
 RegEvents(sc) ==
-  [i \in 1..NA |-> [t |-> "reg_alarm", id |-> i, delay |-> sc.alarms[i].delay]]
+  AlarmRegs(sc, 1)
   \o <<[t |-> "reg_alarm", id |-> ExitAlarm, delay |-> ExitDelay]>>
   \o [f \in 1..NF |-> [t |-> "reg_watch", fd |-> f]]
   \o [i \in 1..NI |-> [t |-> "reg_idle", id |-> i]]
@@ -39,13 +51,19 @@ RegEvents(sc) ==
 Init == /\ scn \in Scenarios
         /\ LET r == Fold(InitState, RegEvents(scn), 1) IN s = r.s /\ why = r.why
         /\ nextid = NA + 2
+        /\ zero = {i \in 1..NA : scn.alarms[i].delay = 0}
         /\ phase = "run"
         /\ steps = 0
 
 \* events produced by a scripted behaviour b run from callback (kind, me)
 FreeIdle(st) == IF \E i \in 1..MaxI : st.idles[i] = "none" THEN CHOOSE i \in 1..MaxI : st.idles[i] = "none" /\ \A j \in 1..(i - 1) : st.idles[j] # "none" ELSE 0
+AddsAlarm(b) == b \in {"addAlarm", "addAlarm0", "slowAddAlarm0"}
+AddsZero(b) == b \in {"addAlarm0", "slowAddAlarm0"}
 BehEvents(b, kind, me) ==
   CASE b = "addAlarm" /\ nextid <= MaxA -> <<[t |-> "reg_alarm", id |-> nextid, delay |-> 10]>>
+    [] b = "addAlarm0" /\ nextid <= MaxA -> <<[t |-> "reg_alarm", id |-> nextid, delay |-> 0]>>      \* the set_alarm_in(0, ...) idiom
+    \* the callback is slow (alarms due meanwhile are overdue now) and then asks for a zero-delay alarm: due now, i.e. after them
+    [] b = "slowAddAlarm0" -> <<[t |-> "slow", d |-> BusyD]>> \o (IF nextid <= MaxA THEN <<[t |-> "reg_alarm", id |-> nextid, delay |-> 0]>> ELSE <<>>)
     [] b = "addIdle" /\ FreeIdle(s) # 0 -> <<[t |-> "reg_idle", id |-> FreeIdle(s)]>>     \* enter_idle() called from within a callback
     [] b = "removeAlarm" -> LET tgt == IF kind = "alarm" THEN (me % NA) + 1 ELSE 1
                             IN <<[t |-> "remove_alarm", id |-> tgt, ret |-> s.alarms[tgt].st = "pending"]>>
@@ -57,10 +75,12 @@ BehEvents(b, kind, me) ==
     [] b = "removeSelfWatch" /\ kind = "watch" -> <<[t |-> "remove_watch", fd |-> me, ret |-> TRUE]>>
     [] b = "removeIdle" -> LET tgt == IF kind = "idle" THEN (me % NI) + 1 ELSE 1
                             IN <<[t |-> "remove_idle", id |-> tgt, ret |-> s.idles[tgt] = "active"]>>
-    [] b = "slow" -> <<[t |-> "slow", d |-> 15]>>
+    [] b = "slow" -> <<[t |-> "slow", d |-> BusyD]>>
     [] b = "exit" -> <<[t |-> "raise", kind |-> "exit"]>>
     [] b = "error" -> <<[t |-> "raise", kind |-> "error"]>>
     [] OTHER -> <<>>
+NextIdAfter(b) == IF AddsAlarm(b) /\ nextid <= MaxA THEN nextid + 1 ELSE nextid
+ZeroAfter(b) == IF AddsZero(b) /\ nextid <= MaxA THEN zero \cup {nextid} ELSE zero
 
 Emit(evs) == LET r == Fold(s, evs, 1) IN s' = r.s /\ why' = r.why
 Raised == s.raised # {}
@@ -70,16 +90,17 @@ AlarmBeh(a) == IF a = ExitAlarm THEN "exit" ELSE IF a <= NA THEN scn.alarms[a].b
 ServeAlarm(a) ==
   /\ phase = "run" /\ ~Raised
   /\ s.alarms[a].st = "pending" /\ s.alarms[a].due <= s.now
-  /\ (Bad = "alarmOrder" \/ \A b \in Pending(s) : s.alarms[b].due >= s.alarms[a].due)
+  \* "zeroDelayFirst": zero-delay alarms go to a ready queue that is served before the overdue timers are looked at
+  /\ (Bad = "alarmOrder" \/ (Bad = "zeroDelayFirst" /\ a \in zero) \/ \A b \in Pending(s) : s.alarms[b].due >= s.alarms[a].due)
   /\ Emit(<<[t |-> "alarm_cb", id |-> a]>> \o BehEvents(AlarmBeh(a), "alarm", a))
-  /\ nextid' = IF AlarmBeh(a) = "addAlarm" /\ nextid <= MaxA THEN nextid + 1 ELSE nextid
+  /\ nextid' = NextIdAfter(AlarmBeh(a)) /\ zero' = ZeroAfter(AlarmBeh(a))
   /\ UNCHANGED <<scn, phase>>
 
 ServeWatch(f) ==
   /\ phase = "run" /\ ~Raised
   /\ (s.watches[f] = "watched" \/ (Bad = "removedWatch" /\ s.watches[f] = "removed")) /\ f \in s.readable
   /\ Emit(<<[t |-> "watch_cb", fd |-> f], [t |-> "drain", fd |-> f]>> \o BehEvents(scn.watches[f].beh, "watch", f))
-  /\ nextid' = IF scn.watches[f].beh = "addAlarm" /\ nextid <= MaxA THEN nextid + 1 ELSE nextid
+  /\ nextid' = NextIdAfter(scn.watches[f].beh) /\ zero' = ZeroAfter(scn.watches[f].beh)
   /\ UNCHANGED <<scn, phase>>
 
 \* all idle callbacks, one after the other; a callback removed by an earlier one is skipped
@@ -92,7 +113,7 @@ IdleRun(st, i) ==
                   (CASE b = "removeIdle" -> <<[t |-> "remove_idle", id |-> (i % NI) + 1, ret |-> st.idles[(i % NI) + 1] = "active"]>>
                      [] b = "exit" -> <<[t |-> "raise", kind |-> "exit"]>>
                      [] b = "error" -> <<[t |-> "raise", kind |-> "error"]>>
-                     [] b = "slow" -> <<[t |-> "slow", d |-> 15]>>
+                     [] b = "slow" -> <<[t |-> "slow", d |-> BusyD]>>
                      [] OTHER -> <<>>)
            r == Fold(st, evs, 1)
        IN IF r.why # "-" THEN r ELSE IdleRun(r.s, i + 1)
@@ -100,7 +121,7 @@ IdleRun(st, i) ==
 RunIdle ==
   /\ phase = "run" /\ ~Raised /\ s.dirty
   /\ LET r == IdleRun(s, 1) IN s' = [r.s EXCEPT !.dirty = FALSE] /\ why' = r.why
-  /\ UNCHANGED <<scn, nextid, phase>>
+  /\ UNCHANGED <<scn, nextid, phase, zero>>
 
 DueNow == \E a \in Pending(s) : s.alarms[a].due <= s.now
 ReadyNow == Watched(s) \cap s.readable
@@ -118,20 +139,21 @@ Block ==
                   [t |-> "advance", to |-> to]>>
                 \o [k \in 1..Cardinality(fds) |-> [t |-> "env_readable", fd |-> CHOOSE f \in fds : Cardinality({g \in fds : g < f}) = k - 1]]
      IN Emit(evs)
-  /\ UNCHANGED <<scn, nextid, phase>>
+  /\ UNCHANGED <<scn, nextid, phase, zero>>
 
-\* descriptors that become readable at time 0 are readable from the start
+\* descriptors that became readable before run() is entered (at time 0, or during a busy start-up) are readable from the start
+AtStart == {f \in 1..NF : scn.watches[f].at <= s.now /\ f \notin s.readable}
 EnvAtStart ==
   /\ phase = "run" /\ steps = 0
-  /\ \E f \in 1..NF : scn.watches[f].at = 0 /\ f \notin s.readable
-  /\ Emit([k \in 1..1 |-> [t |-> "env_readable", fd |-> CHOOSE f \in 1..NF : scn.watches[f].at = 0 /\ f \notin s.readable]])
-  /\ UNCHANGED <<scn, nextid, phase>>
+  /\ AtStart # {}
+  /\ Emit([k \in 1..Cardinality(AtStart) |-> [t |-> "env_readable", fd |-> CHOOSE f \in AtStart : Cardinality({g \in AtStart : g < f}) = k - 1]])
+  /\ UNCHANGED <<scn, nextid, phase, zero>>
 
 Stop ==
   /\ phase = "run" /\ Raised
   /\ Emit(<<[t |-> "run_end", outcome |-> IF "error" \in s.raised THEN "raise" ELSE "return", exc |-> "VfError"]>>)
   /\ phase' = "done"
-  /\ UNCHANGED <<scn, nextid>>
+  /\ UNCHANGED <<scn, nextid, zero>>
 
 Next == /\ why = "-"
         /\ steps' = steps + 1
@@ -146,12 +168,14 @@ Spec == Init /\ [][Next]_vars
 RandomScn ==
   [alarms |-> [i \in 1..NA |-> [delay |-> RandomElement(Delays), beh |-> RandomElement(ABeh)]],
    watches |-> [f \in 1..NF |-> [at |-> RandomElement(Ats), beh |-> RandomElement(WBeh)]],
-   idles |-> [i \in 1..NI |-> RandomElement(IBeh)]]
-SimInit == /\ scn = [alarms |-> <<>>, watches |-> <<>>, idles |-> <<>>]
-           /\ s = InitState /\ why = "-" /\ nextid = NA + 2 /\ phase = "choose" /\ steps = 0
+   idles |-> [i \in 1..NI |-> RandomElement(IBeh)],
+   busy |-> RandomElement(Busy)]
+SimInit == /\ scn = [alarms |-> <<>>, watches |-> <<>>, idles |-> <<>>, busy |-> 0]
+           /\ s = InitState /\ why = "-" /\ nextid = NA + 2 /\ phase = "choose" /\ steps = 0 /\ zero = {}
 Choose == /\ phase = "choose"
           /\ scn' = RandomScn
           /\ LET r == Fold(InitState, RegEvents(scn'), 1) IN s' = r.s /\ why' = r.why
+          /\ zero' = {i \in 1..NA : scn'.alarms[i].delay = 0}
           /\ phase' = "run"
           /\ UNCHANGED <<nextid, steps>>
 SimSpec == SimInit /\ [][Choose \/ Next]_vars
